@@ -67,6 +67,7 @@ Definition icase_model (c : icase) : result := run_via (ic_via c) (world_of c) (
 Definition icase_model_ok (c : icase) : bool :=
   let r := icase_model c in
   status_eqb (r_status r) (ic_status c)
+  && match status_exc (r_status r) with Some e => String.eqb e (ic_exc c) | None => true end
   && same_bindings (final_bindings (r_bound r)) (ic_bound c)
   && match ic_stray c with [] => true | _ => false end.
 
